@@ -20,5 +20,59 @@ pub mod json {
     //@extract crates/jrsonnet-evaluator/src/manifest.rs :: static ESCAPE
     //@extract crates/jrsonnet-evaluator/src/manifest.rs :: fn escape_string_json_buf
 }
+/// The `Val::Str` arm of `manifest_json_ex_buf` (the string truncation that `std.trace` asks for
+/// through `JsonFormat::debug()`), extracted as a block and wrapped in a function that binds the
+/// three names the arm uses.
+pub mod trunc {
+    pub struct JsonFormat {
+        pub debug_truncate_strings: Option<usize>,
+    }
+    #[derive(Clone)]
+    pub struct StrValue<'a>(pub &'a str);
+    impl<'a> StrValue<'a> {
+        pub fn into_flat(self) -> &'a str {
+            self.0
+        }
+    }
+    /// What the arm hands to `escape_string_json_buf`: the whole string, or `format!("{start}..{end}")`.
+    /// The pieces are recorded by address and length instead of being copied and escaped (escaping is
+    /// the subject of `escape_roundtrip_*`); copies of symbolic length made this harness run out of memory.
+    #[derive(Clone, Copy)]
+    pub struct Piece {
+        pub ptr: *const u8,
+        pub len: usize,
+    }
+    pub enum Emitted {
+        Nothing,
+        Whole(Piece),
+        Joined(Piece, Piece),
+    }
+    pub type String = Emitted;
+    pub trait Text {
+        fn emitted(&self) -> Emitted;
+    }
+    impl Text for &str {
+        fn emitted(&self) -> Emitted {
+            Emitted::Whole(Piece { ptr: self.as_ptr(), len: self.len() })
+        }
+    }
+    impl Text for Emitted {
+        fn emitted(&self) -> Emitted {
+            match self {
+                Emitted::Joined(a, b) => Emitted::Joined(*a, *b),
+                Emitted::Whole(a) => Emitted::Whole(*a),
+                Emitted::Nothing => Emitted::Nothing,
+            }
+        }
+    }
+    fn join(start: &str, end: &str) -> Emitted {
+        Emitted::Joined(Piece { ptr: start.as_ptr(), len: start.len() }, Piece { ptr: end.as_ptr(), len: end.len() })
+    }
+    fn escape_string_json_buf<T: Text>(t: &T, buf: &mut String) {
+        *buf = t.emitted();
+    }
+    pub fn str_arm(s: &StrValue, options: &JsonFormat, buf: &mut String)
+    //@extract crates/jrsonnet-evaluator/src/manifest.rs :: block fn manifest_json_ex_buf @ Val::Str\(s\) => || s/format!\("\{start\}\.\.\{end\}"\)/join(start, end)/1
+}
 #[cfg(kani)]
 mod harnesses;
